@@ -6,6 +6,14 @@ CHECKS = {
    technique="runtime monitor: lock-step reference model over recorded cache operations (exhaustive short sequences + PRNG sequences)",
    text="Every operation sequence up to length 5/6 over a 9-op alphabet (two capacities) plus tens of thousands to millions of PRNG sequences are executed on the real cache.Cache next to a reference cache; after every operation the exported fields must equal the model (or be unchanged after a rejection). Held-on-observed, not a proof.",
    note="Trusted: the 60-line reference cache and its reading of the cache.Memory contract; ReservedSize of dead symbols and Pop on the single top frame are don't-care."),
+ "C14": dict(engine="codec", category="exploration", design="§3 C14",
+   technique="runtime monitor: round-trip and three-way decoder agreement over enumerated argument domains (all uint32 in thorough) and PRNG programs",
+   text="The library's encoders (vm.NewLine, asm.writeSize/writeSym through the verif hook) are run over every symbol length 1..255, every uint32 (thorough) or all width boundaries plus 2M values (quick), and PRNG programs; each encoding is decoded by the VM's Parse* functions, the disassembler and an independent harness decoder, and must come back identical with exact byte consumption; asm.Parse(ToString(b)) must reproduce b.",
+   note="Trusted: the harness decoder written from the format description. Programs outside the assembler's own grammar skip the re-assembly leg."),
+ "C15": dict(engine="codec", category="exploration", design="§3 C15",
+   technique="runtime monitor: strict-validator oracle + recover() + differential over-read detection (three buffer presentations) on exhaustively enumerated short inputs and all single-byte mutants/truncations of valid programs",
+   text="Every byte string up to length 3 (thorough; quick a subset covering every in-range opcode), all strings of length 4..6 over an 18-byte alphabet, and every truncation and single-byte substitution of PRNG programs are fed to ParseAll/ToString, the VM's Parse* chain and Vm.Run; a panic, success on input the validator classifies as malformed, or a result that depends on bytes beyond the slice is a violation.",
+   note="Trusted: the strict validator. NOOP (opcode 0) and rejection of complete-valid input are don't-care. Vm.Run: runtime-error panics only."),
 }
 NOT_YET = {}
 ALL = ["C%02d" % i for i in range(1, 21)]
